@@ -1,0 +1,12 @@
+//go:build verif
+
+package wallet
+
+// Contracts for govc (see /verif/DESIGN.md, C02). Comment-only; compiled only with -tags verif.
+// Opening the wallet never removes anything from disk (no file-removal effect is declared, so any call that can remove
+// files is an obligation that fails), and the manager is built on the store that was opened or created at the
+// configured place.
+
+//@ func NewPoCWallet
+//@   requires nothing-failed-yet: !loadFailed && !in_tx && !write_failed
+//@   assert-at call NewKeystoreManagerForPoC manager-built-on-the-store-opened-at-the-configured-place: arg0 == store && arg1 == password
